@@ -97,12 +97,15 @@ every optimal solution of the modelled MILP and every placement `create_task_map
 respects the priorities. Missing: all instances outside F — see `c15_counterexample*` for why the full statement
 cannot be proved for the present encoding. -/
 theorem c15_partial_F (inst : Instance) (hwf : inst.WF)
-    (hF : inst.inF1 = true ∨ (inst.inF2 = true ∧ inst.prios.length ≤ 32)) (x : Sched.Assign)
+    (hF : inst.inF1 = true ∨ inst.inF2 = true) (x : Sched.Assign)
     (hopt : Optimal (milp inst) x) (pl : Placement) (hv : ValidPlacement inst x pl) :
     PriorityRespecting inst pl := by
-  rcases hF with hF | ⟨hF, hlv⟩
+  rcases hF with hF | hF
   · exact priorityRespecting_of_inF1 hwf hF hv
-  · exact priorityRespecting_of_inF2 hwf hF (batches_spec hwf.levelsNonempty hlv) hopt hv
+  · have hlv : inst.prios.length ≤ 32 := by
+      simp only [Instance.inF2, Bool.and_eq_true, decide_eq_true_eq] at hF
+      exact hF.2
+    exact priorityRespecting_of_inF2 hwf hF (batches_spec hwf.levelsNonempty hlv) hopt hv
 
 /-! ### the property fails outside F (known finding F7) -/
 
@@ -289,12 +292,11 @@ def inF2ex : Instance where
   classes := [{ need := 30000 }, { need := 10000 }, { need := 20000 }]
   queues := [[(5, [(1, 1)]), (1, [(1, 2)])], [(3, [(2, 1)]), (0, [(2, 2), (2, 3)])], []]
 
-example : inF2ex.WF ∧ inF2ex.inF1 = false ∧ inF2ex.inF2 = true ∧ inF2ex.prios.length ≤ 32 ∧
+example : inF2ex.WF ∧ inF2ex.inF1 = false ∧ inF2ex.inF2 = true ∧
     Optimal (milp inF2ex) (assignOf [(.P 1 0, 1), (.P 1 1, 1), (.B 0 1, 0), (.B 1 1, 0)]) ∧
     ValidPlacement inF2ex (assignOf [(.P 1 0, 1), (.P 1 1, 1), (.B 0 1, 0), (.B 1 1, 0)])
       [((1, 1), 1), ((2, 1), 1)] :=
   ⟨⟨by decide, by decide, by decide, by decide, by decide, by decide, by decide, by decide⟩, by decide, by decide,
-   by decide,
    optimal_of_box (ub := boxBound inF2ex) (by decide +kernel) (by decide +kernel) (by decide +kernel) (by decide +kernel),
    ⟨by decide, by decide,
     by
